@@ -682,28 +682,73 @@ func derivesFrom(v ssa.Value, src func(ssa.Value) bool) bool {
 					return true
 				}
 			}
-			if refs := x.Referrers(); refs != nil {
-				for _, ref := range *refs {
-					switch a := ref.(type) {
+			// everything stored into an element / field of the aggregate, at any nesting depth (a literal table of structs)
+			var inner func(a ssa.Value, depth int) bool
+			inner = func(a ssa.Value, depth int) bool {
+				if depth > 4 || a.Referrers() == nil {
+					return false
+				}
+				for _, ref := range *a.Referrers() {
+					switch y := ref.(type) {
 					case *ssa.IndexAddr:
-						for _, st := range storesTo(a) {
+						if y.X != a {
+							continue
+						}
+						for _, st := range storesTo(y) {
 							if rec(st.Val, d+1) {
 								return true
 							}
 						}
+						if inner(y, depth+1) {
+							return true
+						}
 					case *ssa.FieldAddr:
-						for _, st := range storesTo(a) {
+						if y.X != a {
+							continue
+						}
+						for _, st := range storesTo(y) {
 							if rec(st.Val, d+1) {
 								return true
 							}
+						}
+						if inner(y, depth+1) {
+							return true
 						}
 					}
 				}
+				return false
+			}
+			if inner(x, 0) {
+				return true
 			}
 		}
 		return false
 	}
 	return rec(v, 0)
+}
+
+// factStrsMentioning: the facts at site (in the spellings of factStrs) whose condition is computed from a field
+// named field — also when the field is reached through a local table (an array of {name, &c.Field} walked by a loop).
+func factStrsMentioning(fn *ssa.Function, site ssa.Instruction, field string) map[string]bool {
+	out := map[string]bool{}
+	for _, f := range factsAt(fn, site) {
+		hit := derivesFrom(f.cond, func(v ssa.Value) bool {
+			switch y := v.(type) {
+			case *ssa.FieldAddr, *ssa.Field:
+				fv, _, is := fieldOf(y)
+				return is && fname(fv) == field
+			}
+			return false
+		})
+		if !hit {
+			continue
+		}
+		out[fmt.Sprintf("%s=%v", atomStr(f.cond), f.truth)] = true
+		if a, pos := normAtom(f.cond, nil); a != "" {
+			out[fmt.Sprintf("%s=%v", a, f.truth == pos)] = true
+		}
+	}
+	return out
 }
 
 // storesTo returns Store instructions whose address is addr, or (for FieldAddr
@@ -1570,6 +1615,33 @@ func closureFn(v ssa.Value) *ssa.Function {
 		return closureFn(x.X)
 	case *ssa.MakeInterface:
 		return closureFn(x.X)
+	case *ssa.Call:
+		// a factory: a module function all of whose returns hand back one and the same function literal
+		g := unwrapSynthetic(staticCallee(x))
+		if g == nil || g.Blocks == nil || !isModPath(originPkgPath(g)) {
+			return nil
+		}
+		var only *ssa.Function
+		ok := true
+		eachInstr(g, func(in ssa.Instruction) {
+			ret, isRet := in.(*ssa.Return)
+			if !isRet || isRecoverReturn(ret) {
+				return
+			}
+			if len(ret.Results) != 1 {
+				ok = false
+				return
+			}
+			f := closureFn(ret.Results[0])
+			if f == nil || (only != nil && only != f) {
+				ok = false
+				return
+			}
+			only = f
+		})
+		if ok {
+			return only
+		}
 	}
 	return nil
 }
@@ -1592,6 +1664,13 @@ func factStrsDeepAll(fn *ssa.Function, site ssa.Instruction) map[string]bool {
 		}
 		paths, ok := bs.summarise(h, map[string]string{}, 1)
 		if !ok {
+			// the predicate has a loop: a membership test over a constant table (for _, k := range table { if x == k
+			// { return true } }; return false). What a false result guarantees is read off its `return false` sites.
+			if !fc.truth {
+				for k := range loopPredicateFalseFacts(h) {
+					out[k] = true
+				}
+			}
 			continue
 		}
 		var common map[string]bool
@@ -1711,4 +1790,225 @@ func tableElementOf(v ssa.Value) *ssa.Global {
 		}
 	}
 	return nil
+}
+
+// globalIntTable: the integer constants a package-level array / slice variable is initialised with.
+func globalIntTable(g *ssa.Global) (out []int64, ok bool) {
+	if g == nil || g.Pkg == nil {
+		return nil, false
+	}
+	initFn := g.Pkg.Func("init")
+	if initFn == nil {
+		return nil, false
+	}
+	ok = true
+	backing := map[ssa.Value]bool{ssa.Value(g): true}
+	eachInstr(initFn, func(in ssa.Instruction) {
+		if st, isSt := in.(*ssa.Store); isSt && st.Addr == ssa.Value(g) {
+			if sl, isSl := unconv(st.Val).(*ssa.Slice); isSl {
+				backing[sl.X] = true
+			}
+			if u, isU := unconv(st.Val).(*ssa.UnOp); isU && u.Op == token.MUL {
+				backing[u.X] = true
+			}
+		}
+	})
+	eachInstr(initFn, func(in ssa.Instruction) {
+		st, isSt := in.(*ssa.Store)
+		if !isSt {
+			return
+		}
+		ia, isIA := st.Addr.(*ssa.IndexAddr)
+		if !isIA || !backing[ia.X] {
+			return
+		}
+		if k, isC := constInt(st.Val); isC {
+			out = append(out, k)
+		} else {
+			ok = false
+		}
+	})
+	for _, m := range g.Pkg.Members {
+		fn, isFn := m.(*ssa.Function)
+		if !isFn || fn == initFn {
+			continue
+		}
+		for _, f2 := range append([]*ssa.Function{fn}, fn.AnonFuncs...) {
+			eachInstr(f2, func(in ssa.Instruction) {
+				if st, isSt := in.(*ssa.Store); isSt {
+					if st.Addr == ssa.Value(g) {
+						ok = false
+					}
+					if ia, isIA := st.Addr.(*ssa.IndexAddr); isIA && ia.X == ssa.Value(g) {
+						ok = false
+					}
+				}
+			})
+		}
+	}
+	return out, ok && len(out) > 0
+}
+
+// loopPredicateFalseFacts: for a bool-valued helper with a membership loop, the facts that hold whenever it
+// returns false: the branch facts dominating each `return false`, intersected, plus "x==k=false" for every
+// constant k of a package-level table when the function can only reach that return by exhausting a loop whose
+// body returns true on x == table[i].
+func loopPredicateFalseFacts(h *ssa.Function) map[string]bool {
+	var common map[string]bool
+	eachInstr(h, func(in ssa.Instruction) {
+		ret, ok := in.(*ssa.Return)
+		if !ok || len(ret.Results) != 1 {
+			return
+		}
+		b, isC := constBool(ret.Results[0])
+		if !isC {
+			// a non-constant result: give up on this helper
+			common = map[string]bool{}
+			return
+		}
+		if b {
+			return
+		}
+		cur := map[string]bool{}
+		for k := range factStrs(h, ret) {
+			cur[k] = true
+		}
+		// membership tests that lead to `return true` and are evaluated for every element before this return is reached
+		eachInstr(h, func(i2 ssa.Instruction) {
+			iff, ok := i2.(*ssa.If)
+			if !ok {
+				return
+			}
+			bo, ok := iff.Cond.(*ssa.BinOp)
+			if !ok || bo.Op != token.EQL {
+				return
+			}
+			var subj, elem ssa.Value
+			if g := tableElementOf(unconv(bo.Y)); g != nil {
+				subj, elem = bo.X, bo.Y
+			} else if g := tableElementOf(unconv(bo.X)); g != nil {
+				subj, elem = bo.Y, bo.X
+			}
+			if elem == nil {
+				return
+			}
+			// the true edge returns true
+			tb := iff.Block().Succs[0]
+			rt, isRet := tb.Instrs[len(tb.Instrs)-1].(*ssa.Return)
+			if !isRet || len(rt.Results) != 1 {
+				return
+			}
+			if v, isC := constBool(rt.Results[0]); !isC || !v {
+				return
+			}
+			// the loop is a range over the whole table: its exit (to this return) is the exhausted edge
+			if !reachableInstr(iff, iff, nil) || !reachableInstr(iff, ret, nil) {
+				return
+			}
+			tab, ok := globalIntTable(tableElementOf(unconv(elem)))
+			if !ok {
+				return
+			}
+			// the return must not be reachable from the function entry without passing the loop's test at least ... the
+			// loop header dominates it and every iteration passes the test: require the test's block to dominate the
+			// loop's back edge, i.e. no `continue` before it
+			hdr := loopHeaderOf(iff.Block())
+			if hdr == nil || !hdr.Dominates(ret.Block()) {
+				return
+			}
+			for _, k := range tab {
+				cur[fmt.Sprintf("%s==%d=false", atomStr(unconvNum(subj)), k)] = true
+			}
+		})
+		if common == nil {
+			common = cur
+		} else {
+			for k := range common {
+				if !cur[k] {
+					delete(common, k)
+				}
+			}
+		}
+	})
+	if common == nil {
+		return map[string]bool{}
+	}
+	return common
+}
+
+// loopHeaderOf: the innermost block that dominates b and is reachable from b (the header of the loop b is in).
+func loopHeaderOf(b *ssa.BasicBlock) *ssa.BasicBlock {
+	var hdr *ssa.BasicBlock
+	for d := b; d != nil; d = d.Idom() {
+		// is there a path b -> ... -> d ?  (then d is on a cycle with b and dominates it: a loop header)
+		seen := map[*ssa.BasicBlock]bool{}
+		st := append([]*ssa.BasicBlock{}, b.Succs...)
+		found := false
+		for len(st) > 0 && !found {
+			x := st[len(st)-1]
+			st = st[:len(st)-1]
+			if x == d {
+				found = true
+				break
+			}
+			if seen[x] {
+				continue
+			}
+			seen[x] = true
+			st = append(st, x.Succs...)
+		}
+		if found {
+			hdr = d
+		}
+	}
+	return hdr
+}
+
+// deepMarker lifts a marker predicate over calls of same-package helpers: a call counts as the marker when every
+// path through the helper passes one — directly, in a further helper, or inside the function literal that this
+// call hands to the helper and that the helper invokes on every path (p.modify(func(state) { ...marker... })).
+func deepMarker(base func(ssa.Instruction) bool, depth int) func(ssa.Instruction) bool {
+	var self func(in ssa.Instruction) bool
+	self = func(in ssa.Instruction) bool {
+		if base(in) {
+			return true
+		}
+		call, ok := in.(*ssa.Call)
+		if !ok || depth > 2 {
+			return false
+		}
+		h := helperBody(call)
+		if h == nil {
+			return false
+		}
+		inner := deepMarker(base, depth+1)
+		args := callArgs(call)
+		isM := func(in2 ssa.Instruction) bool {
+			if inner(in2) {
+				return true
+			}
+			c2, ok := in2.(*ssa.Call)
+			if !ok {
+				return false
+			}
+			// the helper invokes one of its function-typed parameters: look into what this call bound to it
+			p, ok := cellValue(c2.Call.Value).(*ssa.Parameter)
+			if !ok || p.Parent() != h {
+				return false
+			}
+			for ai, q := range h.Params {
+				if q != p || ai >= len(args) {
+					continue
+				}
+				cl := closureFn(args[ai])
+				if cl == nil || cl.Blocks == nil {
+					return false
+				}
+				return len(exitsFromEntryAvoiding(cl, inner, nil)) == 0
+			}
+			return false
+		}
+		return len(exitsFromEntryAvoiding(h, isM, nil)) == 0
+	}
+	return self
 }
